@@ -236,6 +236,25 @@ def run_case(case, ctx):
         t2 = reparse(t)
         judge("Table reparsed", t2.get_value((1, 1)))
         judge("Table reparsed get_row", t2.get_row(1).get_value(1))
+    # ---- one Cell object built elsewhere, written at several places (default: the table keeps copies) -------------------
+    with ctx.guard(("C06", "Cell-object-reused", "exception", kind), case):
+        cobj = Cell(v)
+        tg = Table("G")
+        spots = [(2, 0), (3, 1), (2, 2), (5, 0), (0, 3)]
+        for xy_ in spots:
+            tg.set_cell(xy_, cobj)
+        rg = Row()
+        rg.set_cell(3, cobj)
+        rg.set_cell(6, cobj)
+        for phase in ("written", "after the caller changed its object"):
+            for xy_ in spots:
+                judge(f"Table.set_cell(same Cell object) at {xy_} {phase}", tg.get_value(xy_))
+            judge(f"Row.set_cell(same Cell object) at 3 {phase}", rg.get_value(3))
+            judge(f"Row.set_cell(same Cell object) at 6 {phase}", rg.get_value(6))
+            judge(f"Table.set_cell(same Cell object) get_values {phase}", tg.get_values()[1][3])
+            cobj.set_value("changed by the caller")
+            cobj.style = "callerstyle"
+        judge("Table.set_cell(same Cell object) reparsed", reparse(tg).get_value((2, 0)))
     # ---- variables / user fields ----------------------------------------------
     with ctx.guard(("C06", "variables", "exception", kind), case):
         vs = VarSet("v1", value=v)
